@@ -27,6 +27,9 @@ enum K {
     OptBool,
     Any,
     HelperF64,
+    HelperI64,
+    HelperI64Str,
+    HelperF64Str,
     Ignored,
 }
 
@@ -137,6 +140,27 @@ fn conv(d: &Data, k: K, pos: (u32, u32)) -> Result<V, E> {
             Data::Empty => V::N,
             Data::Error(_) => unreachable!(),
         }),
+        K::HelperI64 | K::HelperI64Str | K::HelperF64Str => {
+            // deserialize_as_{i64,f64}_or_{none,string}: Data::deserialize (date-times arrive as
+            // floats, ISO strings as strings), then as_i64 / as_f64, else None / Err(to_string)
+            let as_str = |s: &String| -> Result<V, E> {
+                Ok(match k {
+                    K::HelperI64 => s.parse::<i64>().map(V::I).unwrap_or(V::N),
+                    K::HelperI64Str => s.parse::<i64>().map(V::I).unwrap_or_else(|_| V::S(s.clone())),
+                    _ => s.parse::<f64>().map(|x| V::F(x.to_bits())).unwrap_or_else(|_| V::S(s.clone())),
+                })
+            };
+            let int = k != K::HelperF64Str;
+            match d {
+                Data::Int(v) => Ok(if int { V::I(*v) } else { V::F((*v as f64).to_bits()) }),
+                Data::Float(v) => Ok(if int { V::I(*v as i64) } else { V::F(v.to_bits()) }),
+                Data::DateTime(v) => Ok(if int { V::I(v.as_f64() as i64) } else { V::F(v.as_f64().to_bits()) }),
+                Data::Bool(b) => Ok(if int { V::I(*b as i64) } else { V::F((*b as i32 as f64).to_bits()) }),
+                Data::String(s) | Data::DateTimeIso(s) | Data::DurationIso(s) => as_str(s),
+                Data::Empty => Ok(V::N),
+                Data::Error(_) => unreachable!(),
+            }
+        }
         K::Ignored => Ok(V::N),
     }
 }
@@ -290,13 +314,29 @@ struct Rec {
     delta: Option<bool>,
     #[serde(default, deserialize_with = "calamine::deserialize_as_f64_or_none")]
     eps: Option<f64>,
+    #[serde(default, deserialize_with = "calamine::deserialize_as_i64_or_none")]
+    zeta: Option<i64>,
+    #[serde(rename = "Eta H", default = "absent_i", deserialize_with = "calamine::deserialize_as_i64_or_string")]
+    eta: Result<i64, String>,
+    #[serde(default = "absent_f", deserialize_with = "calamine::deserialize_as_f64_or_string")]
+    theta: Result<f64, String>,
 }
-const REC_FIELDS: [(&str, K); 5] = [
+const ABSENT: &str = "<absent>";
+fn absent_i() -> Result<i64, String> {
+    Err(ABSENT.to_string())
+}
+fn absent_f() -> Result<f64, String> {
+    Err(ABSENT.to_string())
+}
+const REC_FIELDS: [(&str, K); 8] = [
     ("alpha", K::OptF64),
     ("beta", K::OptStr),
     ("gamma g", K::OptI64),
     ("delta", K::OptBool),
     ("eps", K::HelperF64),
+    ("zeta", K::HelperI64),
+    ("Eta H", K::HelperI64Str),
+    ("theta", K::HelperF64Str),
 ];
 
 impl Target for Rec {
@@ -314,10 +354,21 @@ impl Target for Rec {
             self.gamma.map_or(V::N, V::I),
             self.delta.map_or(V::N, V::B),
             self.eps.map_or(V::N, |v| V::F(v.to_bits())),
+            self.zeta.map_or(V::N, V::I),
+            match &self.eta {
+                Ok(v) => V::I(*v),
+                Err(e) if e == ABSENT => V::N,
+                Err(e) => V::S(e.clone()),
+            },
+            match &self.theta {
+                Ok(v) => V::F(v.to_bits()),
+                Err(e) if e == ABSENT => V::N,
+                Err(e) => V::S(e.clone()),
+            },
         ]
     }
     fn expect_named(cols: &[(String, &Data, (u32, u32))]) -> Result<Vec<V>, E> {
-        let mut r = vec![V::N; 5];
+        let mut r = vec![V::N; 8];
         for (h, d, p) in cols {
             match REC_FIELDS.iter().position(|f| f.0 == h) {
                 Some(i) => r[i] = conv(d, REC_FIELDS[i].1, *p)?,
@@ -360,7 +411,11 @@ fn gen_cell(rng: &mut Rng, serial: &mut u64, allow_err: bool) -> Data {
         1 => Data::Float(k as f64 + 0.25),
         2 => Data::Float(-(k as f64) * 1000.5),
         3 => Data::Float(300.0 + k as f64), // > u8::MAX: saturating cast
-        4 => Data::String(format!("{}", k as i64 - 20)),
+        4 => Data::String(match k % 7 {
+            0 => "9223372036854775808".to_string(), // i64::MAX + 1
+            1 => "-9223372036854775808".to_string(),
+            _ => format!("{}", (k as i64 % 60) - 30),
+        }),
         5 => Data::String(format!("{}.5", k)),
         6 => Data::String(["TRUE", "true", "True", "FALSE", "false", "False"][(k % 6) as usize].to_string()),
         7 => Data::String(format!("text {}", k)),
@@ -489,6 +544,9 @@ fn run_target<T: Target>(s: &Sheet, cfg: &Cfg, out: &mut UnitResult, ctx_json: &
     let selected = selected.unwrap();
     let n_items = s.h - first_data;
     let mut got_items = 0usize;
+    // every other case advances with a mix of next() and nth(k)
+    let adv = hash_str(&ctx_json.to_string()) % 2;
+    let mut plan = hash_str(&ctx_json.to_string());
     loop {
         let remaining = n_items.saturating_sub(got_items);
         let (lo, hi) = it.size_hint();
@@ -496,14 +554,28 @@ fn run_target<T: Target>(s: &Sheet, cfg: &Cfg, out: &mut UnitResult, ctx_json: &
             out.fail(class("size_hint"), json!({"ctx": ctx_json, "hint": [lo, hi], "remaining": remaining, "step": got_items}));
             return;
         }
-        let item = match guard(|| it.next()) {
+        // how the next item is fetched: next(), or nth(k) (what skip / step_by are built on)
+        plan = plan.wrapping_mul(6364136223846793005).wrapping_add(1442695040888963407);
+        let skip = if adv == 0 { 0 } else { [0usize, 0, 1, 2, 3, 0][(plan >> 33) as usize % 6] };
+        let item = match guard(|| if skip == 0 { it.next() } else { it.nth(skip) }) {
             Ok(i) => i,
             Err(f) => {
                 out.fail(class(&format!("next:fault:{}", f.class)), ctx_json.clone());
                 return;
             }
         };
-        let Some(item) = item else { break };
+        if skip > 0 {
+            out.feat("iterator:nth");
+        }
+        let Some(item) = item else {
+            if remaining > skip {
+                out.fail(class("item_count"), json!({"ctx": ctx_json, "ended_after": got_items, "nth": skip, "want": n_items}));
+                return;
+            }
+            got_items = n_items;
+            break;
+        };
+        got_items += skip;
         if got_items >= n_items {
             out.fail(class("too_many_items"), ctx_json.clone());
             return;
@@ -658,12 +730,12 @@ fn one_case(rng: &mut Rng, out: &mut UnitResult) {
         }
         8 => {
             // struct field names as headers
-            let w = rng.usize(5) + 5;
+            let w = rng.usize(3) + 8;
             let mut names = names_pool.clone();
             if rng.chance(1, 5) {
-                names.remove(rng.usize(5)); // a field is missing -> HeaderNotFound
+                names.remove(rng.usize(8)); // a field is missing -> HeaderNotFound
             }
-            let extra: Vec<String> = names.split_off(5.min(names.len()));
+            let extra: Vec<String> = names.split_off(8.min(names.len()));
             let mut cols = names;
             for e in extra.into_iter().take(w.saturating_sub(cols.len())) {
                 cols.push(e);
@@ -736,7 +808,7 @@ impl Prop for C09 {
         tier.pick(16, 320)
     }
     fn mandatory(&self, _t: Tier) -> Vec<String> {
-        let mut v: Vec<String> = ["no_headers", "all_headers", "custom_headers", "deserialize_headers", "header_not_found", "cell_error", "conversion_error", "empty_range", "header_only"]
+        let mut v: Vec<String> = ["no_headers", "all_headers", "custom_headers", "deserialize_headers", "header_not_found", "cell_error", "iterator:nth", "conversion_error", "empty_range", "header_only"]
             .iter().map(|s| s.to_string()).collect();
         for t in ["Vec<Data>", "Vec<String>", "Vec<Option<f64>>", "(f64,)", "(String,f64)", "(i64,String,bool)", "HashMap<String,Data>", "BTreeMap<String,String>", "struct Rec"] {
             v.push(format!("target:{}", t));
